@@ -16,7 +16,8 @@ Dump grammars (space separated tokens; strings as hex, `-` = empty):
         pk = how many of Prefix / Path / Regex are set, act = ActionType (0 unsupported, 1 route,
         2 non-forwarding), csp = 0 none | 1 names a plugin present in the update with a config | 2 dangling,
         retry = `-` | <nRetryOn>:<numRetries>:<baseNs>:<maxNs>
-  cds:  <namehex> <type> <edsnamehex> <dnshex> <nprio> <lbok> <odok> <maxreq|->
+  cds:  <namehex> <type> <edsnamehex> <dnshex> <nprio> <lbok> <odok> <maxreq|-> <ringMin:ringMax|->
+        (ring sizes of a ring_hash LB policy; lbok = 1 when the LB registry parses the policy JSON)
   lds:  api <rcnamehex> <inline> [rds dump if inline = 1] <msdNs> <nfilters> { <namehex> <terminal> }
         tcp <addrhex> <porthex>
 -/
@@ -180,9 +181,29 @@ def rdsMonitor (ts : List String) : String :=
 
 /-! ### CDS -/
 
+/-- ringHashSizeUpperBound of unmarshal_cds.go (8M) -/
+def ringHashSizeUpperBound : Nat := 8388608
+
+/-- ring sizes of an accepted ring_hash policy: neither above 8M, and min ≤ max — both as written
+    (the check added to unmarshal_cds.go by e491411) and as the ring_hash config parser reads them
+    (balancer/ringhash/config.go: a size of 0 means "unset": min defaults to 1024, max to 4096) -/
+def ringInv (rh : String) : Option String :=
+  if rh = "-" then none else
+  match (rh.splitOn ":").mapM String.toNat? with
+  | some [mn, mx] =>
+    let effMin := if mn = 0 then 1024 else mn
+    let effMax := if mx = 0 then 4096 else mx
+    if mn > ringHashSizeUpperBound then some s!"ring_hash LB policy with minRingSize {mn} above {ringHashSizeUpperBound}"
+    else if mx > ringHashSizeUpperBound then some s!"ring_hash LB policy with maxRingSize {mx} above {ringHashSizeUpperBound}"
+    else if mn > mx then some s!"ring_hash LB policy with minRingSize {mn} > maxRingSize {mx}"
+    else if effMin > effMax then
+      some s!"ring_hash LB policy whose effective minRingSize {effMin} (0 means default) exceeds its effective maxRingSize {effMax}"
+    else none
+  | _ => some "unparsable ring sizes"
+
 def cdsMonitor (ts : List String) : String :=
   match ts with
-  | [name, typ, _eds, dns, nprio, lbok, odok, maxreq] =>
+  | [name, typ, _eds, dns, nprio, lbok, odok, maxreq, rh] =>
     match typ.toNat?, nprio.toNat? with
     | some t, some np =>
       verdict "ClusterUpdate" <|
@@ -192,6 +213,7 @@ def cdsMonitor (ts : List String) : String :=
         else if t ≠ 1 ∧ dns ≠ "-" then some "a DNS host name on a non-LOGICAL_DNS cluster"
         else if t = 2 ∧ np = 0 then some "aggregate cluster without child clusters"
         else if t ≠ 2 ∧ np ≠ 0 then some "child clusters on a non-aggregate cluster"
+        else if (ringInv rh).isSome then ringInv rh
         else if lbok = "ringsize" then some "LB policy JSON is rejected by the ring_hash config parser (ring size bounds)"
         else if lbok ≠ "1" then some "LB policy JSON is not a valid LB config"
         else if odok ≠ "1" then some "outlier detection JSON is invalid"
